@@ -118,6 +118,13 @@ def crashed(ctx, rep, eng, progress):
     unsplit = dict(case)
     unsplit["seg"] = {"class": "unsplit", "cuts": []}
     r0 = ctx.go_engine("recvh", eng, env={"VERIF_REPLAY_CASE": json.dumps(unsplit)}, timeout=300, name=eng + ":crash-unsplit", allow_crash=True)
+    if (r0.get("_exit") != 0 or "cases" not in r0) and re.search(r"go9p\.\(\*(Clnt|Conn)\)\.recv", r0.get("_stdout") or ""):
+        # the receive loop itself panics on a legal stream even in the most benign delivery: what it does is then not what the
+        # specification predicts for that stream (the messages, in order), whatever the segmentation
+        ctx.violation("%s:crash:seg=unsplit" % side,
+                      "the receive loop of the real %s panics (%s) on a legal stream even when it is sent unsplit" % (
+                          "server" if side == "srv" else "client", panic_line(r0.get("_stdout"))), unsplit)
+        return
     if r0.get("_exit") != 0 or "cases" not in r0:
         ctx.log("engine output tail:\n" + "\n".join((r0.get("_stdout") or "").splitlines()[-40:]))
         ctx.inconclusive.append("engine %s: the process dies on the stream of %s even when it is sent unsplit (%s): not a "
